@@ -3290,6 +3290,28 @@ pub enum Statement {
     },
 }
 
+/// A charset or collation name of `SET NAMES`: the parser accepts a word or a string
+/// literal and keeps only the text, so anything that is not a single plain
+/// non-keyword word has to be written back as a string literal to be read as one name again.
+fn fmt_set_names_part(f: &mut fmt::Formatter, name: &str) -> fmt::Result {
+    let mut chars = name.chars();
+    let plain = match chars.next() {
+        Some(c) => {
+            (c.is_ascii_alphabetic() || c == '_')
+                && chars.all(|c| c.is_ascii_alphanumeric() || c == '_')
+                && crate::keywords::ALL_KEYWORDS
+                    .binary_search(&name.to_ascii_uppercase().as_str())
+                    .is_err()
+        }
+        None => false,
+    };
+    if plain {
+        f.write_str(name)
+    } else {
+        write!(f, "'{}'", value::escape_single_quote_string(name))
+    }
+}
+
 impl fmt::Display for Statement {
     // Clippy thinks this function is too complicated, but it is painful to
     // split up without extracting structs for each `Statement` variant.
@@ -4420,11 +4442,11 @@ impl fmt::Display for Statement {
                 collation_name,
             } => {
                 f.write_str("SET NAMES ")?;
-                f.write_str(charset_name)?;
+                fmt_set_names_part(f, charset_name)?;
 
                 if let Some(collation) = collation_name {
                     f.write_str(" COLLATE ")?;
-                    f.write_str(collation)?;
+                    fmt_set_names_part(f, collation)?;
                 };
 
                 Ok(())
